@@ -192,10 +192,9 @@ def str_matches(
     :param pattern: Regular expression pattern to use for matching
     """
     pattern = pattern.pattern if isinstance(pattern, re.Pattern) else pattern
-    if not pattern.startswith("^"):
-        pattern = f"^{pattern}"
+    # anchor the whole pattern: a top-level alternation must not escape "^"
     return data.lazyframe.select(
-        pl.col(data.key).str.contains(pattern=pattern)
+        pl.col(data.key).str.contains(pattern=f"^(?:{pattern})")
     )
 
 
